@@ -224,10 +224,14 @@ class ProbDetGrammar(TaggedDetGrammar[float, U, V, W]):
             tags[S] = {}
             for P in self.tags[S]:
                 if isinstance(P, Constant) and P.type in constants:
-                    for val in constants[P.type]:
-                        tags[S][Constant(P.type, val, True)] = self.tags[S][P] / len(
-                            constants[P.type]
+                    # equal values give one rule: share the mass between the rules created
+                    instances = list(
+                        dict.fromkeys(
+                            Constant(P.type, val, True) for val in constants[P.type]
                         )
+                    )
+                    for instance in instances:
+                        tags[S][instance] = self.tags[S][P] / len(instances)
                 else:
                     tags[S][P] = self.tags[S][P]
         return self.__class__(self.grammar.instantiate_constants(constants), tags)
